@@ -210,6 +210,29 @@ def main():
         for i in range(len(asts)):
             f.write(f"        {i} => {{ let p = p{i}(); if clone {{ let c = p.clone(); drop(p); parse_one::<&str, Rich<char>, _>(&c, input, toks, mode) }} else {{ parse_one::<&str, Rich<char>, _>(&p, input, toks, mode) }} }}\n")
         f.write("        _ => return None,\n    })\n}\n")
+        # C13: threads sharing one parser value through Arc<dyn Parser + Send + Sync> (parsers holding Rc -- recursive(),
+        # boxed() -- are not Sync and are left out)
+        def has(g, ops):
+            return isinstance(g, list) and ((len(g) > 0 and isinstance(g[0], str) and g[0] in ops) or any(has(x, ops) for x in g))
+        sync = [i for i, g in enumerate(asts) if not has(g, {"rec", "ref", "boxed"})]
+        f.write("\npub const SYNC: &[usize] = &" + json.dumps(sync) + ";\n\n"
+                "/// n threads parse every input of the pool (each starting at a different one, `rounds` times) through one shared\n"
+                "/// Arc<dyn Parser + Send + Sync>; returns per thread the (accepted, output, errors) of every parse in pool order\n"
+                "pub fn run_static_threads(idx: usize, pool: &[(String, Vec<char>)], n: usize, rounds: usize) -> Option<Vec<Vec<(bool, String, String)>>> {\n"
+                "    use std::sync::Arc;\n    Some(match idx {\n")
+        for i in sync:
+            f.write(f"        {i} => {{ let arc: Arc<dyn Parser<'_, &str, Val, XR<'_>> + Send + Sync + '_> = Arc::new(p{i}()); threads_on(&arc, pool, n, rounds) }}\n")
+        f.write("        _ => return None,\n    })\n}\n\n"
+                "fn threads_on<'a>(arc: &std::sync::Arc<dyn Parser<'a, &'a str, Val, XR<'a>> + Send + Sync + 'a>, pool: &'a [(String, Vec<char>)], n: usize, rounds: usize) -> Vec<Vec<(bool, String, String)>> {\n"
+                "    std::thread::scope(|s| {\n"
+                "        let hs: Vec<_> = (0..n).map(|t| { let arc = arc.clone(); s.spawn(move || {\n"
+                "            let mut res: Vec<Option<(bool, String, String)>> = vec![None; pool.len()];\n"
+                "            for r in 0..rounds { for k in 0..pool.len() { let j = (k + t + r) % pool.len(); let (text, toks) = &pool[j];\n"
+                "                let o = parse_one::<&str, Rich<char>, _>(&&*arc, &text[..], toks, \"E\");\n"
+                "                let key = (o.ok, o.out.to_string(), format!(\"{:?}\", o.errs));\n"
+                "                match &res[j] { None => res[j] = Some(key), Some(old) if *old != key => res[j] = Some((false, \"<unstable across rounds>\".into(), String::new())), _ => {} }\n"
+                "            } }\n            res.into_iter().map(|x| x.unwrap()).collect::<Vec<_>>()\n        }) }).collect();\n"
+                "        hs.into_iter().map(|h| h.join().unwrap()).collect()\n    })\n}\n")
     with open(os.path.join(ROOT, "spec", "Stat.tla"), "w") as f:
         f.write("-------------------------------- MODULE Stat --------------------------------\n"
                 "(* GENERATED by tools/gen_static.py: the grammars for which the harness has statically typed parsers *)\n"
